@@ -24,6 +24,7 @@ META = {
 THEOREMS = [
     "FileWrite.C01_blocks_general",
     "FileWrite.C01_blocks",
+    "FileWrite.C01_write_file",
     "FileWrite.fold_card",
     "FileWrite.fold_block",
     "FileWrite.cardOKb_iff",
@@ -62,7 +63,7 @@ def run_case(case):
         except Exception as e:  # noqa: BLE001
             return {"stage": "read", "error": type(e).__name__, "msg": str(e)[:300]}
         try:
-            res["objects"] = wholefile.object_lines(p)
+            res["objects"] = wholefile.object_lines(wholefile.read_text(text, limit, sc, "twin.imcnp"))
         except Exception as e:  # noqa: BLE001
             res["objects_error"] = type(e).__name__ + ": " + str(e)[:200]
         try:
@@ -92,6 +93,13 @@ def judge(case, res, dens):
             sig["how"] = geometry_class(detail[0], detail[1])
         elif cls in ("comment-c", "comment-dollar", "comment-block-head"):
             sig["how"] = "lost" if len(detail[1]) < len(detail[0]) else ("added" if len(detail[1]) > len(detail[0]) else "changed")
+            # which kind of card owns the comment (narrow signatures: a loss elsewhere is a different violation)
+            if where.startswith("data["):
+                name = where.split(":", 1)[1].split()[0] if ":" in where else ""
+                base = name.split(":")[0].lstrip("*").rstrip("0123456789")
+                sig["card"] = "data:" + (base if base in spec.CELL_DATA else "other")
+            else:
+                sig["card"] = where.split("[")[0]
         elif cls in ("cell-param-missing",):
             sig["how"] = ("dropped " if detail[1] else "added ") + str(detail[0][0])
         elif cls == "data-entries":
@@ -156,6 +164,8 @@ def run(chk):
         "harness tools/props/c01.py, tools/vlib/wholefile.py, tools/vlib/spec.py",
     ]
     leanio.prove(chk, "MontePyVerif.Props.C01Blocks", THEOREMS, "MontePyVerif")
+    if chk.thorough:
+        leanio.leanchecker(chk, ["MontePyVerif.Props.C01Blocks"])
     drv = leanio.Driver(chk, "drv_c01")
 
     cases = [c for c in gen_cases(chk) if not _has_read_card(c["text"])]
